@@ -262,6 +262,7 @@ def run(rep, F, tier, only=None, rule="R2.6"):
     if only is None or "ring-step" in only:
         ring_step(rep, F)
         composition(rep, F)
+        ring_whole(rep, F)
     if only is None or "polygon-composition" in only:
         polygon_composition(rep, F)
     if only is None:
@@ -562,3 +563,97 @@ def polygon_composition(rep, F):
             rep.bad(RULE, key, "exterior %s / holes %s gives %s, expected %s" % (ext, holes, got, want), where=fn.loc())
     if n < 5:
         rep.bad(RULE, "compose:Polygon:rows", "only %d rows" % n, where=fn.loc())
+
+
+# ------------------------------------------------------------------ whole-ring tables (exact unrolling for rings of 4 and 5 coordinates)
+def _pip(ring, q):
+    """exact point-in-ring for a closed integer ring: 'OnBoundary' / 'Inside' / 'Outside' (winding number by orientation)"""
+    n = len(ring) - 1
+    for i in range(n):
+        if on_segment(q, ring[i], ring[i + 1]):
+            return "OnBoundary"
+    wn = 0
+    for i in range(n):
+        a, b = ring[i], ring[i + 1]
+        o = orient(a, b, q)
+        if a["y"] <= q["y"]:
+            if b["y"] > q["y"] and o == "CounterClockwise":
+                wn += 1
+        elif b["y"] <= q["y"] and o == "Clockwise":
+            wn -= 1
+    return "Inside" if wn != 0 else "Outside"
+
+
+def _simple(ring):
+    n = len(ring) - 1
+    for i in range(n):
+        for j in range(i + 1, n):
+            a, b, c, d = ring[i], ring[i + 1], ring[j], ring[j + 1]
+            adjacent = j == i + 1 or (i == 0 and j == n - 1)
+            if adjacent:
+                # adjacent edges may only share their common vertex
+                shared = b if j == i + 1 else a
+                other1 = a if j == i + 1 else b
+                other2 = d if j == i + 1 else c
+                if on_segment(other1, c, d) and other1 != shared or on_segment(other2, a, b) and other2 != shared:
+                    return False
+                continue
+            o1, o2, o3, o4 = orient(a, b, c), orient(a, b, d), orient(c, d, a), orient(c, d, b)
+            if (o1 != o2 and o3 != o4) or on_segment(c, a, b) or on_segment(d, a, b) or on_segment(a, c, d) or on_segment(b, c, d):
+                return False
+    return True
+
+
+def ring_whole(rep, F):
+    """coord_pos_relative_to_ring on closed rings of 4 and 5 coordinates: the complete path table (loops unrolled exactly) is walked with every
+    simple ring on a 3x3 grid (both orientations, every start vertex) and every query point of a 4x4 grid."""
+    try:
+        fn = F.one(r"^geo::algorithm::coordinate_position::coord_pos_relative_to_ring$", crates=("geo",))
+    except KeyError as e:
+        rep.bad(RULE, "ring-whole:anchor", str(e))
+        return
+    LS = GT + "line_string::LineString"
+    total = 0
+    for N in (4, 5):
+        elems = tuple(("index", ("field", ("deref", ("arg", 2)), "0"), ("const", i)) for i in range(N))
+        ring_t = ("&", ("adt", LS, "LineString", (("call", "vec!", (("array", elems),)),)))
+        ex = Symex(F, no_inline=HELPERS + [r"is_closed$"], loop_bound=N + 3, max_paths=300000, budget_s=120, concrete_iters=True)
+        try:
+            paths = [p for p in ex.run(fn, args=[("arg", 1), ring_t]) if p.kind != "cut"]
+        except Unanalysable as e:
+            rep.bad(RULE, "ring-whole:unanalysable", str(e), where=fn.loc())
+            return
+        tree = Tree([p for p in paths if p.kind == "ret"])
+        calls = dict(CALLS)
+        calls["geo_types::geometry::line_string::LineString::<T>::is_closed"] = lambda ev, args: True
+        n = 0
+        for vs in itertools.product(G3, repeat=N - 1):
+            if len({(v["x"], v["y"]) for v in vs}) != N - 1:
+                continue
+            ring = list(vs) + [vs[0]]
+            a2 = sum(ring[i]["x"] * ring[i + 1]["y"] - ring[i + 1]["x"] * ring[i]["y"] for i in range(N - 1))
+            if a2 == 0 or not _simple(ring):
+                continue
+            for q in G4:
+                ev = Evaluator(F, {("arg", 1): q, ("arg", 2): {"0": ring}}, calls)
+                try:
+                    hit = tree.select(ev)
+                    if len(hit) != 1:
+                        rep.bad(RULE, "ring-whole", "ring %s query %s selects %d rows" % (fmt({"r": ring}), fmt(q), len(hit)), where=fn.loc())
+                        return
+                    r = ev.ev(hit[0].ret)
+                    got = r.variant if isinstance(r, Enum) else str(r)
+                except NoModel as e:
+                    rep.bad(RULE, "ring-whole:non-abstractable", "a decision of the ring test is not a function of orientation signs and coordinate comparisons (%s)" % e, where=fn.loc())
+                    return
+                want = _pip(ring, q)
+                n += 1
+                if got != want:
+                    rep.bad(RULE, "ring-whole", "for the ring %s and the query %s the path table of coord_pos_relative_to_ring gives %s, exact geometry gives %s  [row: %s]" % (
+                        " ".join(fmt(v) for v in ring), fmt(q), got, want, show_pc(hit[0].pc)[:240]), where=fn.loc(), detail={"ring": [fmt(v) for v in ring], "query": fmt(q), "got": got, "want": want})
+                    return
+        total += n
+    if total < 5000:
+        rep.bad(RULE, "ring-whole:floor", "only %d witnesses" % total)
+    else:
+        rep.ok(RULE, "ring-whole[%d witnesses; rings of 4 and 5 coordinates]" % total, sample={"witnesses": total})
